@@ -66,6 +66,12 @@ def record(sc: dict, rng: random.Random | None = None) -> dict:
         ctor = dict(base) if (sc["via"] == "ctor" or k is None) else dict(base, **{k: alt})
         run = PoolRun(cls, ctor)
         ev, skipped = [], []
+        if k is not None:
+            from ..impl_pooltags import override_equivalence
+            for cell in ("a", "e"):
+                eq = override_equivalence(cls, base, k, alt, cell)
+                if eq is not None:
+                    ev.append({"a": "state", "cell": cell, "ctor": eq[0], "over": eq[1]})
         for cell, which in PATTERNS[sc["pattern"]]:
             if cell.startswith("-"):
                 if cell[1:] not in skipped:
@@ -132,6 +138,8 @@ def run_pool_tags(chk: Check, rng: random.Random, thorough: bool):
         for e in t["ev"]:
             if e["a"] == "add":
                 chk.nontrivial.add(("pool-tags", sc["trainer"], sc["key"], e["name"], e["cell"]))
+            elif e["a"] == "state":
+                chk.nontrivial.add(("override-eq", sc["trainer"], sc["key"], sc["alt"], e["cell"]))
     seen = set()
     for r in rej:
         t = plain[r["trace"]]
@@ -195,6 +203,10 @@ def replay(rep: dict) -> int:
     sc = rep["scenario"]
     t = record(sc, random.Random(sc.get("seed", 0)))
     bad = [e for e in t["ev"] if e["a"] == "add" and e["got"] != e["cfg"]]
+    for e in t["ev"]:
+        if e["a"] == "state" and e["ctor"] != e["over"]:
+            print(f"replay: cell {e['cell']!r}: via constructor {e['ctor']}\n        via register_cell override {e['over']}")
+            bad.append(e)
     _, rej = tracecheck.validate("PoolTagsTrace", _strip([t]), shards=1)
     for e in bad[:3]:
         print(f"replay: cell {e['cell']!r} monitor {e['name']!r}: asked {e['cfg']} bound {e['got']}")
